@@ -386,3 +386,43 @@ func siteCons(p *eng.Prog, in ssa.Instruction, ord map[string]int, kind string) 
 	}
 	return k
 }
+
+// EvalBool: the truth of `s.state == K` / `s.state != K` in configuration c, for a load of the
+// state made right before its use (no call in between).
+func (t *smtpTS) EvalBool(v ssa.Value, c eng.TSConfig) (bool, bool) {
+	r, ok := eng.CondRel(v)
+	if !ok {
+		return false, false
+	}
+	kk, isC := eng.ConstInt(r.Y)
+	if !isC || !eng.SameField(eng.LoadedField(r.X), t.m.fState) {
+		return false, false
+	}
+	ld, isIn := r.X.(ssa.Instruction)
+	bo, isBo := v.(ssa.Instruction)
+	if !isIn || !isBo || ld.Block() != bo.Block() {
+		return false, false
+	}
+	seenLoad := false
+	for _, in := range ld.Block().Instrs {
+		if in == ld {
+			seenLoad = true
+			continue
+		}
+		if in == bo {
+			break
+		}
+		if seenLoad {
+			if _, isCall := in.(*ssa.Call); isCall {
+				return false, false
+			}
+		}
+	}
+	switch r.Op {
+	case token.EQL:
+		return c.A == kk, true
+	case token.NEQ:
+		return c.A != kk, true
+	}
+	return false, false
+}
